@@ -353,9 +353,16 @@ end LatSpec
   that may or may not have been materialised (by the user, or by an earlier request).
   `inv` is the `inverse_indices` attribute hanging on `edge_node_connectivity`. -/
 
+/-- how the arrays of a grid's dataset are stored: in memory, or (after `Grid.chunk(...)`) as lazy dask
+    arrays.  It is NOT an input of any getter or of the slicer: nothing below reads it. -/
+inductive Backing where
+  | numpy | dask
+deriving Repr, DecidableEq
+
 structure State where
   w : Nat
   t : Table
+  backing : Backing := .numpy
   en : Option (List (Int × Int)) := none
   inv : Option (List Int) := none
   fe : Option Table := none
@@ -374,6 +381,8 @@ deriving Repr, DecidableEq
 
 inductive Var where
   | edgeNode | faceEdge | nPerFace | nodeFace | edgeFace | faceFace | holes | edgeFaceDist
+  /-- `Grid.chunk(n_node=…, n_edge=…, n_face=…)`: a history operation that changes no value -/
+  | chunk
 deriving Repr, DecidableEq
 
 /-- number of nodes: one more than the largest entry (`_ds.sizes["n_node"]`; only its being
@@ -441,6 +450,7 @@ def request (g : State) : Var → Option State
   | .faceFace => getFF g
   | .holes => getHoles g
   | .edgeFaceDist => getEFD g
+  | .chunk => some { g with backing := .dask }
 
 /-- a history of requests on a grid (`none` as soon as one raises) -/
 def runHist (g : State) : List Var → Option State
@@ -481,7 +491,7 @@ def State.sliceWith (attrsTravel holesTravel efdStale : Bool) (g : State) (idx :
   let g ← getFE g
   let g := getEN g
   let u := sliceFaces g.src idx
-  pure { w := g.w, t := u.t, en := some u.EN,
+  pure { w := g.w, t := u.t, backing := g.backing, en := some u.EN,
          inv := if attrsTravel then g.inv else none,
          fe := if attrsTravel then none else some u.FE,
          npf := g.npf.map (fun N => idx.map (fun f => N.getD f 0)),
